@@ -14,7 +14,7 @@ RULE = ("G5 trees (local and server) with random attribute data written by the h
         "Non-trivial = distinct (universe, search, attributes, encoder) with at least one record.")
 ASSUME = ["the sidecar location comes from the live configuration (get_data_json_path); entities whose sidecar files coincide share their data",
           "GetFromAll vs GetFromPaths is compared for searches without '>'"]
-BUDGET = {"quick": (96, 30), "thorough": (1600, 40)}
+BUDGET = {"quick": (96, 30), "thorough": (6400, 40)}
 NSHARDS = 16
 KEYS = ["comment", "frames", "author"]
 
